@@ -3,6 +3,7 @@ use crate::explore::Engine;
 pub mod c01;
 pub mod c02;
 pub mod c03;
+pub mod c04;
 pub mod c05;
 pub mod c06;
 pub mod c07;
@@ -10,6 +11,8 @@ pub mod c07_programs;
 pub mod c08;
 pub mod c09;
 pub mod c10;
+pub mod c11;
+pub mod c12;
 pub mod c13;
 pub mod c14;
 pub mod c15;
@@ -18,5 +21,5 @@ pub mod c17;
 pub mod c18;
 
 pub fn all() -> Vec<&'static dyn Engine> {
-    vec![&c01::C01, &c02::C02, &c03::C03, &c05::C05, &c06::C06, &c07::C07, &c08::C08, &c09::C09, &c10::C10, &c13::C13, &c14::C14, &c15::C15, &c16::C16, &c17::C17, &c18::C18]
+    vec![&c01::C01, &c02::C02, &c03::C03, &c04::C04, &c05::C05, &c06::C06, &c07::C07, &c08::C08, &c09::C09, &c10::C10, &c11::C11, &c12::C12, &c13::C13, &c14::C14, &c15::C15, &c16::C16, &c17::C17, &c18::C18]
 }
